@@ -944,6 +944,11 @@ func run(c *core.Case) {
 		}
 	}
 
+	// views of shared arrays (shared.go)
+	if len(failed) == 0 && !mo.sharing(r, gen) {
+		return
+	}
+
 	// everything shuffled at once, built directly and decoded from a document
 	for k := 0; k < 2; k++ {
 		a := base.clone()
@@ -1123,6 +1128,7 @@ func Prop() *core.Prop {
 		"values_with_non_ascii_text", "reference_comparisons", "permutations_identities", "permutations_features", "permutations_forms",
 		"permutations_fields", "permutations_values", "permutations_combined", "values_unmarshalled", "values_from_GetInfo", "decoded_values_with_an_empty_value", "reference_comparisons_decoded", "malformed_values", "malformed_values_unmarshalled",
 		"hash_calls", "appendhash_calls",
+		"shared_backing_sequences", "shared_backing_sequences_with_unsorted_shared_features", "shared_view_hashes", "caller_visible_rechecks", "concurrent_shared_value_hashes", "concurrent_shared_view_hashes",
 		"concurrent_cases", "concurrent_hashes", "concurrent_cases_with_overlapping_goroutines", "concurrent_cases_with_4_or_more_goroutines_at_once", "concurrent_cases_with_gomaxprocs_ge_4",
 	}
 	for _, a := range linked() {
